@@ -39,7 +39,7 @@ Proof. apply nodupb_NoDup. exact revisions_nodupb. Qed.
 Lemma steps_nonempty_b : negb (Nat.eqb (List.length steps) 0) = true.
 Proof. vm_compute. reflexivity. Qed.
 Lemma steps_nonempty : steps <> [].
-Proof. intro H. pose proof steps_nonempty_b as B. rewrite H in B. discriminate. Qed.
+Proof. intro H. pose proof steps_nonempty_b as B. rewrite H in B. discriminate B. Qed.
 
 (* every hash the model needs is in the table (no lookup fell through to the sentinel) *)
 Definition no_sentinel (l : list string) : bool := negb (existsb (String.eqb "?md5-not-in-table") l).
@@ -173,9 +173,9 @@ Proof.
   exists (mkdb base_schema RNoTable 0). intro H.
   pose proof fixpoint_witness_b as B. unfold two_readonly in B.
   destruct (run_history real_md5 orm_schema steps (File (mkdb base_schema RNoTable 0)) [[]; []]) as [os f] eqn:E.
-  simpl in B. destruct os as [|o1 [|o2 [|o3 os]]]; try discriminate.
+  simpl in B. destruct os as [|o1 [|o2 [|o3 os]]]; try discriminate B.
   destruct (H o1 o2 f eq_refl) as [H1 _]. apply ok_stmts_of_nil in H1. rewrite H1 in B. simpl in B.
-  discriminate.
+  discriminate B.
 Qed.
 
 (* a file made by create_all (current schema, no stamp) is changed by its first reopen *)
@@ -190,8 +190,8 @@ Proof.
     { unfold schema_beq. induction a as [|[t c] a IH]; simpl; [reflexivity|]. rewrite IH, andb_true_r.
       unfold table_beq. simpl. rewrite String.eqb_refl. simpl.
       induction c as [|x c IHc]; simpl; [reflexivity|]. rewrite String.eqb_refl. exact IHc. }
-    rewrite R in B3. discriminate.
-  - intro E. rewrite E in B2. discriminate.
+    rewrite R in B3. discriminate B3.
+  - intro E. rewrite E in B2. discriminate B2.
 Qed.
 
 (* generated facts packaged for Props.v *)
